@@ -115,6 +115,7 @@ func (e *Engine) WriteEvidence(res *CheckResult, seed int, checkerCmd string, ex
 	inlinedSet := map[string]bool{}
 	var samples []any
 	nonvac, vacChecks := 0, 0
+	var pruned []string
 	for _, r := range res.Reports {
 		name := r.Key
 		if r.Inst != "" {
@@ -132,6 +133,9 @@ func (e *Engine) WriteEvidence(res *CheckResult, seed int, checkerCmd string, ex
 			}
 			for k := range r.Ctx.Inlined {
 				inlinedSet[k] = true
+			}
+			for _, p := range r.Ctx.Pruned {
+				pruned = append(pruned, shortKey(name)+": path not verified beyond: "+p)
 			}
 		}
 		for _, o := range r.Obls {
@@ -208,6 +212,7 @@ func (e *Engine) WriteEvidence(res *CheckResult, seed int, checkerCmd string, ex
 		"solver_ms_total":          solverMs,
 		"undecided_not_claimed":    res.Undecided,
 		"out_of_subset":            res.OutOfSub,
+		"paths_not_verified":       pruned,
 		"known_findings_reported":  res.Known,
 		"vacuity":                  map[string]int{"must_fail_checks": vacChecks, "passed": nonvac},
 		"explanation":              "every obligation is an SMT query generated from the current source of the function under contract; `discharged` counts unsat answers",
